@@ -497,7 +497,11 @@ Definition run_dnsq (id fl : N) (name : bytes) (qt : N) : string :=
                      if (rq_id x =? id) && (rq_flags x =? fl) && (rq_qd x =? 1) && (rq_an x =? 0) && (rq_ns x =? 0)
                         && (rq_ar x =? 0) && eqbytes (wire_of_labels (rq_labels x)) name && (rq_type x =? qt)
                         && (rq_class x =? 1) && eqbytes (rq_trailing x) []
-                     then sp (show_fresh r)
+                     then (* the read-back column is the library's DecodeQuestion, which since repo commit c8663df
+                             rejects a label containing '.': such names are encoded (the reference decoder above
+                             has read them back) but are outside the domain of the library-view read-back *)
+                          if existsb (fun l => existsb (N.eqb 46) l) (rq_labels x) then "-" else
+                          sp (show_fresh r)
                              (fmt_dns (dec_of_N id) (dec_of_N fl) "1" "0" "0" "0"
                                 (sp (sp (sp (kv "name" (tok_of_bytes (join_labels (rq_labels x)))) (kv "qt" (dec_of_N qt)))
                                     (kv "qc" "1")) (kv "end" (dn (16 + List.length name)))))
